@@ -100,6 +100,13 @@ func (c *fakeConn) takeWrites() []fwrite {
 	return w
 }
 
+// number of datagrams written and not yet taken
+func (c *fakeConn) pendingWrites() int {
+	c.mu.Lock()
+	defer c.mu.Unlock()
+	return len(c.writes)
+}
+
 func (c *fakeConn) Close() error                       { c.once.Do(func() { close(c.closed) }); return nil }
 func (c *fakeConn) LocalAddr() net.Addr                { return c.local }
 func (c *fakeConn) SetDeadline(t time.Time) error      { return nil }
